@@ -169,6 +169,20 @@ CLAIMS = {
             "pyvc/field.py + sympy 1.14 (Groebner, reduction over Q); p an odd prime exceeding the formula constants; odd "
             "group order (infinity encoded as y = 0); scalar-multiplication loops bounded only",
             "deductive: polynomial-identity VCs from the real code per path, sympy ideal membership; bounded enumeration"),
+    "C20": ("proof",
+            "lock: the source of _rwlock.py is turned mechanically into guarded commands (one per statement, += split into "
+            "read and write) for 2 readers + 2 writers; the counting invariant of the light-switch pattern is instantiated "
+            "from those commands and z3 discharges, over symbolic states, Init => Inv, Inv preserved by each of the 62 "
+            "commands, Inv => a writer never shares the lock, Inv => some command is enabled (no deadlock), Inv => no release "
+            "of a free lock; two readers holding it together is a validated reachability witness; refutations come with a "
+            "schedule replayed on the real RWLock with real threads stepped by sys.settrace.  Curve objects: the guarantee "
+            "(single-assignment publication of __coords / __precompute) by AST scan as ground obligations, the sequential "
+            "results by C17, the interleavings at every source line of scale() / _maybe_precompute() against complete "
+            "operations of a second thread enumerated on the real objects (bounded)",
+            "DESIGN.md section 9 C20",
+            "threading.Lock as a binary semaphore; configuration 2+2; CPython reference load/store atomic; the rely/guarantee "
+            "argument for the curve objects is checked only on the enumerated interleavings",
+            "deductive: inductive invariant over an extracted transition system, z3; bounded interleaving enumeration"),
 }
 
 NA_DEFAULT = "check not built yet (construction in progress, see DESIGN.md section 14)"
